@@ -694,6 +694,9 @@ def regexp_FindStringSubmatch(ex, st, frame, ins, args):
 def regexp_MatchString(ex, st, frame, ins, args):
     m = ex.m
     re_v, s = args
+    if isinstance(re_v.py, tuple) and re_v.py[0] == 'globalval':
+        ex.regex_used[re_v.py[1]] = re_v.leaves[0]
+        ex.trusted.add('regexp %s: matching of literal strings is computed from the pattern text' % re_v.py[1].rsplit('.', 1)[-1])
     return Val('bool', [m.uf('re_match', m.Int, m.Str, m.Bool)(re_v.leaves[0], s.leaves[0])])
 
 
